@@ -376,6 +376,8 @@ bool StepExtended(ScriptExecutionEnvironment& env, CScript::const_iterator& pc, 
             for (size_t i = 0; i < vch1.size(); ++i) vch1[i] &= vch2[i];
         } else if (env.opcode == OP_OR) {
             for (size_t i = 0; i < vch1.size(); ++i) vch1[i] |= vch2[i];
+        } else {
+            for (size_t i = 0; i < vch1.size(); ++i) vch1[i] ^= vch2[i];
         }
         popstack(stack);
         popstack(stack);
